@@ -1719,15 +1719,28 @@ Proof.
 Qed.
 
 Definition clean (c : N) (t : tree) : Prop := forall x, In x (names t) -> ~ In c x.
+(* the same for a separator of any length: no character of it occurs in any node name *)
+Definition cleans (sp : str) (t : tree) : Prop := forall x, In x (names t) -> sfree sp x.
 
-Lemma grow_step_false_true c t parent pt done nm last na t' p :
-  NoDup (names t) -> clean c t -> ~ In c nm ->
-  subtree_at t parent = Some pt -> names_along t parent = done ->
-  grow_step [c] false t parent (done ++ [nm]) nm last na = Ret (t', p) ->
-  grow_step [c] true t parent (done ++ [nm]) nm last na = Ret (t', p)
-  /\ (exists pt', subtree_at t' p = Some pt') /\ names_along t' p = done ++ [nm] /\ clean c t'.
+Lemma clean_cleans c t : clean c t <-> cleans [c] t.
+Proof. split; intros H x Hx; [apply sfree_one|apply sfree_one]; now apply H. Qed.
+
+Lemma join_inj_multi sp (l1 l2 : list str) :
+  sp <> [] -> l1 <> [] -> l2 <> [] -> Forall (sfree sp) l1 -> Forall (sfree sp) l2 ->
+  join sp l1 = join sp l2 -> l1 = l2.
 Proof.
-  intros Hn Hc Hnm Hp Hd. pose proof (NoDup_names_sib_ok t Hn) as Hw.
+  intros Hs H1 H2 F1 F2 E. destruct sp as [|a sp']; [congruence|].
+  rewrite <- (split_join_multi a sp' l1 H1 F1), <- (split_join_multi a sp' l2 H2 F2). now rewrite E.
+Qed.
+
+Lemma grow_step_false_true tsep t parent pt done nm last na t' p :
+  tsep <> [] -> NoDup (names t) -> cleans tsep t -> sfree tsep nm ->
+  subtree_at t parent = Some pt -> names_along t parent = done ->
+  grow_step tsep false t parent (done ++ [nm]) nm last na = Ret (t', p) ->
+  grow_step tsep true t parent (done ++ [nm]) nm last na = Ret (t', p)
+  /\ (exists pt', subtree_at t' p = Some pt') /\ names_along t' p = done ++ [nm] /\ cleans tsep t'.
+Proof.
+  intros Hts Hn Hc Hnm Hp Hd. pose proof (NoDup_names_sib_ok t Hn) as Hw.
   unfold grow_step. rewrite Hp.
   destruct (find_all nm t) as [|q [|q' r]] eqn:F; [| |discriminate].
   - (* no node of that name anywhere: both create it *)
@@ -1747,38 +1760,39 @@ Proof.
     + intros x Hx. eapply Permutation_in in Hx; [|eapply names_add_kid; exact Hp].
       rewrite names_unfold in Hx. cbn in Hx. destruct Hx as [<-|Hx]; [exact Hnm|now apply Hc].
   - (* exactly one node of that name, and the full-path comparison succeeded *)
-    destruct (str_eqb (path_name [c] t q) ([c] ++ join [c] (names_along t parent ++ [nm]))) eqn:E;
+    destruct (str_eqb (path_name tsep t q) (tsep ++ join tsep (names_along t parent ++ [nm]))) eqn:E;
       [|rewrite <- Hd; rewrite E; discriminate].
     rewrite <- Hd. rewrite E. intros H. inversion H; subst t' p. clear H.
     assert (Hq : In q (find_all nm t)) by (rewrite F; now left).
     destruct (find_all_sound nm t q Hq) as (s & Hs & Hsn).
     apply str_eqb_eq in E. unfold path_name in E. apply app_inv_head in E.
-    apply join_inj in E.
+    apply (join_inj_multi tsep) in E.
     + destruct (names_along_extends parent t pt q s nm Hw Hp Hs E) as (i & k & -> & Hk & Hkn).
       pose proof (find_idx_complete nm 0 _ i k Hk Hkn) as Hin. cbn [Nat.add] in Hin.
       pose proof (find_idx_nodup nm 0 _ (proj1 (sib_ok_kids pt
                     (sib_ok_subtree _ _ _ Hw Hp)))) as Hlen.
       destruct (find_idx nm 0 (tkids pt)) as [|i0 [|i1 l]]; [contradiction| |cbn in Hlen; lia].
       destruct Hin as [->|[]]. split; [reflexivity|]. split; [eauto|]. split; [exact E|exact Hc].
+    + exact Hts.
     + destruct (names_along_hd t q) as [l ->]. discriminate.
     + destruct (names_along t parent); discriminate.
-    + intros x Hx. apply Hc. apply (names_along_in q t s x Hs Hx).
-    + intros x Hx. apply in_app_or in Hx as [Hx|[<-|[]]]; [|exact Hnm].
+    + apply Forall_forall. intros x Hx. apply Hc. apply (names_along_in q t s x Hs Hx).
+    + apply Forall_forall. intros x Hx. apply in_app_or in Hx as [Hx|[<-|[]]]; [|exact Hnm].
       apply Hc. apply (names_along_in parent t pt x Hp Hx).
 Qed.
 
-Lemma grow_false_true c na : forall rest t parent pt done t' p,
-  NoDup (names t) -> clean c t -> Forall (fun x => ~ In c x) rest ->
+Lemma grow_false_true tsep na : tsep <> [] -> forall rest t parent pt done t' p,
+  NoDup (names t) -> cleans tsep t -> Forall (sfree tsep) rest ->
   subtree_at t parent = Some pt -> names_along t parent = done ->
-  grow [c] false t parent done rest na = (t', Ret p) ->
-  grow [c] true t parent done rest na = (t', Ret p).
+  grow tsep false t parent done rest na = (t', Ret p) ->
+  grow tsep true t parent done rest na = (t', Ret p).
 Proof.
-  induction rest as [|nm rest IH]; intros t parent pt done t' p Hn Hc Hr Hp Hd H; cbn [grow] in *.
+  intros Hts. induction rest as [|nm rest IH]; intros t parent pt done t' p Hn Hc Hr Hp Hd H; cbn [grow] in *.
   - exact H.
   - inversion Hr as [|? ? Hnm Hrest]; subst.
     match type of H with context [grow_step ?a1 ?a2 ?a3 ?a4 ?a5 ?a6 ?a7 ?a8] =>
       destruct (grow_step a1 a2 a3 a4 a5 a6 a7 a8) as [[t1 p1]|e] eqn:Hs; [|discriminate H] end.
-    destruct (grow_step_false_true c t parent pt _ nm _ na t1 p1 Hn Hc Hnm Hp eq_refl Hs)
+    destruct (grow_step_false_true tsep t parent pt _ nm _ na t1 p1 Hts Hn Hc Hnm Hp eq_refl Hs)
       as (Ht & (pt1 & Hp1) & Hn1 & Hc1).
     match goal with |- context [grow_step ?a1 true ?a3 ?a4 ?a5 ?a6 ?a7 ?a8] =>
       replace (grow_step a1 true a3 a4 a5 a6 a7 a8) with (Ret (t1, p1)) by (symmetry; exact Ht) end.
@@ -1786,22 +1800,32 @@ Proof.
     eapply grow_step_false_names; eauto.
 Qed.
 
-(* C05_no_dup_names, second half.  Guard: the separator of the tree is one character that occurs
-   in no node name and in no component of the path (so that the full-path comparison of the code,
-   a comparison of joined strings, identifies nodes). *)
+(* C05_no_dup_names, second half.  Guard: no character of the tree's separator (any positive
+   length) occurs in a node name or in a component of the path, so that the full-path comparison of
+   the code, a comparison of joined strings, identifies nodes. *)
+Theorem add_path_false_true_multi tsep t path sep na t' p :
+  tsep <> [] -> NoDup (names t) -> cleans tsep t -> Forall (sfree tsep) (branch_of path sep) ->
+  add_path_to_tree t tsep path sep false na = (t', Ret p) ->
+  add_path_to_tree t tsep path sep true na = (t', Ret p).
+Proof.
+  intros Hts Hn Hc Hb. unfold add_path_to_tree. destruct (is_nil path); [discriminate|].
+  destruct (branch_of path sep) as [|b0 rest]; [discriminate|].
+  destruct (str_eqb b0 (tname t)) eqn:E; cbn [negb]; [|discriminate].
+  apply str_eqb_eq in E. subst b0.
+  destruct (grow tsep false t [] [tname t] rest na) as [t1 [p1|e]] eqn:Hg; [|discriminate].
+  intros H. inversion H; subst. clear H.
+  rewrite (grow_false_true tsep na Hts rest t [] t [tname t] t1 p Hn Hc); auto.
+  now inversion Hb.
+Qed.
+
+(* the one-character instance *)
 Theorem add_path_false_true c t path sep na t' p :
   NoDup (names t) -> clean c t -> (forall x, In x (branch_of path sep) -> ~ In c x) ->
   add_path_to_tree t [c] path sep false na = (t', Ret p) ->
   add_path_to_tree t [c] path sep true na = (t', Ret p).
 Proof.
-  intros Hn Hc Hb. unfold add_path_to_tree. destruct (is_nil path); [discriminate|].
-  destruct (branch_of path sep) as [|b0 rest]; [discriminate|].
-  destruct (str_eqb b0 (tname t)) eqn:E; cbn [negb]; [|discriminate].
-  apply str_eqb_eq in E. subst b0.
-  destruct (grow [c] false t [] [tname t] rest na) as [t1 [p1|e]] eqn:Hg; [|discriminate].
-  intros H. inversion H; subst. clear H.
-  rewrite (grow_false_true c na rest t [] t [tname t] t1 p Hn Hc); auto.
-  apply Forall_forall. intros x Hx. apply Hb. now right.
+  intros Hn Hc Hb. apply add_path_false_true_multi; [discriminate|exact Hn|now apply clean_cleans|].
+  apply Forall_forall. intros x Hx. apply sfree_one. now apply Hb.
 Qed.
 
 (* ======================================================================================== *)
@@ -2843,16 +2867,9 @@ Proof.
   intros H1 H2 Hne Hg1 Hg2. unfold add_path_to_tree. rewrite !branch_of_join_multi by assumption.
   destruct nms as [|n0 nms]; [congruence|]. inversion Hg1 as [|? ? [Hn0 _] _]; subst.
   destruct n0 as [|ch r0]; [congruence|].
-  destruct (join_head_multi sp1 (ch :: r0) nms ch r0 eq_refl) as [r1 ->].
-  destruct (join_head_multi sp2 (ch :: r0) nms ch r0 eq_refl) as [r2 ->]. reflexivity.
-Qed.
-
-Lemma join_inj_multi sp (l1 l2 : list str) :
-  sp <> [] -> l1 <> [] -> l2 <> [] -> Forall (sfree sp) l1 -> Forall (sfree sp) l2 ->
-  join sp l1 = join sp l2 -> l1 = l2.
-Proof.
-  intros Hs H1 H2 F1 F2 E. destruct sp as [|a sp']; [congruence|].
-  rewrite <- (split_join_multi a sp' l1 H1 F1), <- (split_join_multi a sp' l2 H2 F2). now rewrite E.
+  assert (Hn : forall sp, is_nil (join sp ((ch :: r0) :: nms)) = false).
+  { intros sp. destruct (join_head_multi sp (ch :: r0) nms ch r0 eq_refl) as [r' E]. now rewrite E. }
+  unfold str in *. now rewrite !Hn.
 Qed.
 
 (* "the two readings of the path string s agree": the specification's (split, drop empty ends)
@@ -2896,7 +2913,7 @@ Proof.
   intros Hne.
   assert (R : join sp (L ++ repeat [] b) = join sp L ++ rep sp b).
   { destruct b as [|b]; [cbn [repeat rep]; now rewrite !app_nil_r|].
-    rewrite join_app by (try exact Hne; discriminate). rewrite join_empties. now rewrite rep_snoc_l. }
+    rewrite join_app by (try exact Hne; discriminate). rewrite join_empties. reflexivity. }
   destruct a as [|a]; [exact R|].
   rewrite join_app; [|discriminate|destruct L; [congruence|discriminate]].
   rewrite join_empties, R. rewrite app_assoc, rep_snoc. reflexivity.
@@ -2929,13 +2946,18 @@ Proof.
   assert (Hpad : Forall (sfree sp) (repeat [] a ++ L ++ repeat [] b)).
   { apply Forall_app. split; [|apply Forall_app; split; [exact Hf|]];
       apply Forall_forall; intros x Hx; apply repeat_spec in Hx; subst; intros ch _ []. }
-  split; [rewrite Hls; destruct L as [|[|ch r] L]; [congruence|congruence|];
-          destruct (join_head_multi sp (ch :: r) L ch r eq_refl) as [r' ->]; discriminate|].
+  split.
+  { rewrite Hls. intros E. apply app_eq_nil in E as [E _]. destruct L as [|x L]; [congruence|]. cbn in Hh.
+    destruct x as [|ch r]; [congruence|].
+    destruct (join_head_multi sp (ch :: r) L ch r eq_refl) as [r' E']. unfold str in *. rewrite E' in E. discriminate. }
   rewrite Hbr. split; [|split; [|exact Hf]].
   - unfold spec_parse. rewrite <- (join_pad sp a b L Hne).
     destruct sp as [|c0 sp']; [congruence|].
     rewrite split_join_multi; [|destruct a; [destruct L; [congruence|discriminate]|discriminate]|exact Hpad].
-    rewrite drop_empty_repeat. rewrite (drop_empty_id (L ++ repeat [] b)) by (destruct L; [congruence|exact Hh]).
+    rewrite drop_empty_repeat.
+    assert (E1 : drop_empty (L ++ repeat [] b) = L ++ repeat [] b).
+    { apply drop_empty_id. destruct L; [congruence|exact Hh]. }
+    unfold str in *. rewrite E1.
     rewrite rev_app_distr, rev_repeat, drop_empty_repeat, drop_empty_id; [apply rev_involutive|].
     now rewrite hd_rev_last.
   - rewrite Hls. replace (join sp L ++ rep sp b) with (join sp (repeat [] 0 ++ L ++ repeat [] b))
@@ -3063,55 +3085,58 @@ Proof.
     intros x Hx. rewrite Forall_forall in H2. specialize (H2 x Hx). destruct x; [congruence|reflexivity].
 Qed.
 
-Lemma spec_parse_ok_agree c root s :
-  path_ok_b root (spec_parse s [c]) = true -> spec_parse s [c] = branch_of s [c] /\ s <> [].
+Lemma spec_parse_ok_agree sp root s :
+  PG sp s -> path_ok_b root (spec_parse s sp) = true -> spec_parse s sp = branch_of s sp /\ s <> [].
 Proof.
-  intros H. destruct (lstrip s [c]) as [|ch r] eqn:E.
-  - destruct (parse_empty c s E) as [E1 _]. rewrite E1 in H. discriminate.
-  - split; [apply parse_agree; congruence|]. intros ->. discriminate.
+  intros [(_ & E1 & _)|(E & E1 & _)] H.
+  - rewrite E1 in H. discriminate.
+  - split; [exact E1|]. intros ->. apply E. reflexivity.
 Qed.
 
-Lemma branch_ok_agree c root s rest :
-  root <> [] -> branch_of s [c] = root :: rest -> spec_parse s [c] = branch_of s [c].
+Lemma branch_ok_agree sp root s rest :
+  PG sp s -> root <> [] -> branch_of s sp = root :: rest -> spec_parse s sp = branch_of s sp.
 Proof.
-  intros Hr Hb. destruct (lstrip s [c]) as [|ch r] eqn:E.
-  - destruct (parse_empty c s E) as [_ E2]. rewrite E2 in Hb. inversion Hb. congruence.
-  - apply parse_agree. congruence.
+  intros [(_ & _ & E2)|(_ & E1 & _)] Hr Hb.
+  - rewrite E2 in Hb. inversion Hb. congruence.
+  - exact E1.
 Qed.
 
 (* A1: an accepted loop: every row reads the same under both parsers and passes the spec's test *)
-Lemma add_rows_accepted_ok c tsep : forall rows t acc t' ps,
-  nonempty_names t -> add_rows t tsep [c] true rows acc = (t', Ret ps) ->
+Lemma add_rows_accepted_ok sp tsep : forall rows t acc t' ps,
+  (forall r, In r rows -> PG sp (fst r)) ->
+  nonempty_names t -> add_rows t tsep sp true rows acc = (t', Ret ps) ->
   nonempty_names t' /\ tname t' = tname t /\
-  forall r, In r rows -> spec_parse (fst r) [c] = branch_of (fst r) [c]
-                         /\ path_ok_b (tname t) (spec_parse (fst r) [c]) = true.
+  forall r, In r rows -> spec_parse (fst r) sp = branch_of (fst r) sp
+                         /\ path_ok_b (tname t) (spec_parse (fst r) sp) = true.
 Proof.
-  induction rows as [|[path na] rows IH]; intros t acc t' ps Hne H; cbn [add_rows] in H.
+  induction rows as [|[path na] rows IH]; intros t acc t' ps Hpg Hne H; cbn [add_rows] in H.
   - inversion H; subst. split; [exact Hne|]. split; [reflexivity|]. intros r0 [].
-  - destruct (add_path_to_tree t tsep path [c] true na) as [t1 [p|e]] eqn:Ha; [|discriminate].
+  - destruct (add_path_to_tree t tsep path sp true na) as [t1 [p|e]] eqn:Ha; [|discriminate].
     destruct (add_path_nonempty _ _ _ _ _ _ _ Hne Ha) as (Hne1 & Hn1 & Hp & rest & Hb & Hr).
-    destruct (IH _ _ _ _ Hne1 H) as (Hne' & Hn' & Hrows). split; [exact Hne'|]. split; [congruence|].
+    destruct (IH _ _ _ _ (fun r Hr => Hpg r (or_intror Hr)) Hne1 H) as (Hne' & Hn' & Hrows).
+    split; [exact Hne'|]. split; [congruence|].
     assert (Hroot : tname t <> []) by (apply Hne; apply tname_in_names).
     intros r [<-|Hin]; cbn [fst].
-    + pose proof (branch_ok_agree c _ _ _ Hroot Hb) as Eq. split; [exact Eq|].
+    + pose proof (branch_ok_agree sp _ _ _ (Hpg (path, na) (or_introl eq_refl)) Hroot Hb) as Eq. cbn [fst] in Eq. split; [exact Eq|].
       rewrite Eq, Hb. apply path_ok_b_iff. exists rest. split; [reflexivity|]. now constructor.
     + rewrite <- Hn1. now apply Hrows.
 Qed.
 
 (* A2: rows passing the spec's test are accepted *)
-Lemma add_rows_ok_accepted c tsep : forall rows t acc,
-  sib_ok t -> (forall r, In r rows -> path_ok_b (tname t) (spec_parse (fst r) [c]) = true) ->
-  exists t' ps, add_rows t tsep [c] true rows acc = (t', Ret ps).
+Lemma add_rows_ok_accepted sp tsep : forall rows t acc,
+  (forall r, In r rows -> PG sp (fst r)) ->
+  sib_ok t -> (forall r, In r rows -> path_ok_b (tname t) (spec_parse (fst r) sp) = true) ->
+  exists t' ps, add_rows t tsep sp true rows acc = (t', Ret ps).
 Proof.
-  induction rows as [|[path na] rows IH]; intros t acc Hw Hok; cbn [add_rows]; [eauto|].
+  induction rows as [|[path na] rows IH]; intros t acc Hpg Hw Hok; cbn [add_rows]; [eauto|].
   pose proof (Hok (path, na) (or_introl eq_refl)) as H0. cbn [fst] in H0.
-  destruct (spec_parse_ok_agree c _ _ H0) as [Eq Hp]. rewrite Eq in H0.
+  destruct (spec_parse_ok_agree sp _ _ (Hpg (path, na) (or_introl eq_refl)) H0) as [Eq Hp]. cbn [fst] in Eq. rewrite Eq in H0.
   apply path_ok_b_iff in H0 as (rest & Hb & Hf). inversion Hf as [|? ? _ Hrest]; subst.
-  destruct (add_path_accepts t tsep path [c] na rest Hw Hp Hb Hrest) as (t1 & p & Ha). rewrite Ha.
+  destruct (add_path_accepts t tsep path sp na rest Hw Hp Hb Hrest) as (t1 & p & Ha). rewrite Ha.
   destruct (add_path_reuses _ _ _ _ _ _ _ Ha) as (_ & _ & Hs).
   destruct (add_path_inv _ _ _ _ _ _ _ Ha) as (rest' & _ & _ & E).
   assert (Hn : tname t1 = tname t) by (subst t1; now rewrite tname_upd_at_attrs, ins_tname).
-  apply IH; [now apply Hs|]. intros r Hr. rewrite Hn. apply Hok. now right.
+  apply IH; [intros r Hr; apply Hpg; now right|now apply Hs|]. intros r Hr. rewrite Hn. apply Hok. now right.
 Qed.
 
 (* ======================================================================================== *)
@@ -3201,8 +3226,8 @@ Definition battrs (b : tree) (p : path) : attrs :=
   match assoc_path p (combine (paths b) (map tattrs (pre b))) with Some a => a | None => [] end.
 Definition eattrs (b : tree) (pr : list (path * attrs)) (p : path) : attrs :=
   fold_left (fun a r => if path_eqb (fst r) p then set_attrs a (snd r) else a) pr (battrs b p).
-Definition sprows (c : N) (rows : list row) : list (path * attrs) :=
-  map (fun r => (spec_parse (fst r) [c], snd r)) rows.
+Definition sprows (sp : str) (rows : list row) : list (path * attrs) :=
+  map (fun r => (spec_parse (fst r) sp, snd r)) rows.
 
 Lemma fold_left_map {A B C} (f : A -> B -> A) (g : C -> B) l : forall a,
   fold_left f (map g l) a = fold_left (fun a x => f a (g x)) l a.
@@ -3234,10 +3259,11 @@ Proof.
     subst q0. congruence.
 Qed.
 
-Lemma core_accepted c tsep b rows t' ps :
+Lemma core_accepted sp tsep b rows t' ps :
+  (forall r, In r rows -> PG sp (fst r)) ->
   sib_ok b -> attrs_wf b -> nonempty_names b -> NoDup (paths b) ->
-  add_rows b tsep [c] true rows [] = (t', Ret ps) ->
-  let pr := sprows c rows in
+  add_rows b tsep sp true rows [] = (t', Ret ps) ->
+  let pr := sprows sp rows in
   let all := dedup [] (paths b ++ closure (map fst pr)) in
   paths t' = trie_pre (max_len all) all [tname b]
   /\ map ttag (pre t') = map (etag b) (paths t')
@@ -3246,9 +3272,9 @@ Lemma core_accepted c tsep b rows t' ps :
   /\ forallb (path_ok_b (tname b)) (map fst pr) = true
   /\ (forall q s', subtree_at t' q = Some s' -> subtree_at b q = None -> ttag s' = None).
 Proof.
-  intros Hw Hwf Hne Hnd H pr all.
-  destruct (add_rows_accepted_ok c tsep _ _ _ _ _ Hne H) as (_ & _ & Hrows).
-  assert (Hbr : map fst pr = branches [c] rows).
+  intros Hpg Hw Hwf Hne Hnd H pr all.
+  destruct (add_rows_accepted_ok sp tsep _ _ _ _ _ Hpg Hne H) as (_ & _ & Hrows).
+  assert (Hbr : map fst pr = branches sp rows).
   { unfold pr, sprows, branches. rewrite map_map. apply map_ext_in. intros r Hr. cbn [fst]. now apply Hrows. }
   split; [|split; [|split; [|split; [|split]]]].
   - unfold all. rewrite Hbr. eapply add_rows_extends; eauto.
@@ -3260,7 +3286,7 @@ Proof.
   - apply positions_forallb2. intros q s' Hq.
     assert (Ebase : battrs b (names_along t' q) = attrs_at b q).
     { unfold battrs, attrs_at. apply (base_lookup tattrs [] _ _ _ _ _ _ _ q s' Hw Hnd H Hq). }
-    assert (Efold : eattrs b pr (names_along t' q) = upd_for [c] rows (names_along t' q) (attrs_at b q)).
+    assert (Efold : eattrs b pr (names_along t' q) = upd_for sp rows (names_along t' q) (attrs_at b q)).
     { unfold eattrs, upd_for, pr, sprows. rewrite Ebase, fold_left_map. apply fold_left_ext_in.
       intros a r Hr. cbn [fst snd]. unfold step_attrs. now rewrite (proj1 (Hrows r Hr)). }
     rewrite Efold. apply attrs_equiv_true.
@@ -3288,24 +3314,25 @@ Proof.
   intros n Hin. rewrite forallb_forall in Hne. specialize (Hne n Hin). destruct n; [discriminate|discriminate].
 Qed.
 
-Lemma add_kind_prows k i c :
-  (forall a, spec_filter k (i_pcol i) a = a) -> i_sep i = [c] -> prows k i = sprows c (i_rows i).
+Lemma add_kind_prows k i :
+  (forall a, spec_filter k (i_pcol i) a = a) -> prows k i = sprows (i_sep i) (i_rows i).
 Proof.
-  intros Hf Hs. unfold prows, sprows. rewrite Hs. apply map_ext. intros r. now rewrite Hf.
+  intros Hf. unfold prows, sprows. apply map_ext. intros r. now rewrite Hf.
 Qed.
 
-Lemma add_kind_structure k i c tsep t' ps :
-  is_new k = false -> prows k i = sprows c (i_rows i) ->
+Lemma add_kind_structure k i sp tsep t' ps :
+  (forall r, In r (i_rows i) -> PG sp (fst r)) ->
+  is_new k = false -> prows k i = sprows sp (i_rows i) ->
   sib_ok (i_tree i) -> attrs_wf (i_tree i) -> nonempty_names (i_tree i) -> NoDup (paths (i_tree i)) ->
-  add_rows (i_tree i) tsep [c] true (i_rows i) [] = (t', Ret ps) ->
+  add_rows (i_tree i) tsep sp true (i_rows i) [] = (t', Ret ps) ->
   list_eqb path_eqb (paths t') (expected_paths k i) = true
   /\ list_eqb opt_tag_eqb (map ttag (pre t')) (map (expected_tag k i) (paths t')) = true
   /\ forallb2 (fun p nd => attrs_equiv (tattrs nd) (expected_attrs k i p)) (paths t') (pre t') = true
   /\ forallb (path_ok k i) (map fst (prows k i)) = true
   /\ forallb2 (fun r q => path_eqb (names_along t' q) (fst r)) (prows k i) ps = true.
 Proof.
-  intros Hnew Hpr Hw Hwf Hne Hnd H.
-  destruct (core_accepted c tsep _ _ _ _ Hw Hwf Hne Hnd H) as (F1 & F2 & F3 & F4 & F5 & _).
+  intros Hpg Hnew Hpr Hw Hwf Hne Hnd H.
+  destruct (core_accepted sp tsep _ _ _ _ Hpg Hw Hwf Hne Hnd H) as (F1 & F2 & F3 & F4 & F5 & _).
   unfold expected_paths, all_paths, expected_tag, expected_attrs, base_attrs, path_ok, wrong_root, base, root_name.
   rewrite Hnew, Hpr. split; [|split; [|split; [|split]]].
   - rewrite F1. apply list_eqb_refl. apply path_eqb_refl.
@@ -3316,20 +3343,20 @@ Proof.
 Qed.
 
 (* a first row whose root is wrong (in the specification's reading) leaves the tree untouched *)
-Lemma wrong_root_unchanged c b tsep s dup na :
-  nonempty_names b ->
-  match spec_parse s [c] with [] => true | r :: _ => negb (str_eqb r (tname b)) end = true ->
-  exists e, add_path_to_tree b tsep s [c] dup na = (b, Raise e).
+Lemma wrong_root_unchanged sp b tsep s dup na :
+  PG sp s -> nonempty_names b ->
+  match spec_parse s sp with [] => true | r :: _ => negb (str_eqb r (tname b)) end = true ->
+  exists e, add_path_to_tree b tsep s sp dup na = (b, Raise e).
 Proof.
-  intros Hne Hwr. destruct s as [|ch s0] eqn:Es.
+  intros Hpg Hne Hwr. destruct s as [|ch s0] eqn:Es.
   - exists ValueError. reflexivity.
   - rewrite <- Es in *. assert (Hs : s <> []) by (rewrite Es; discriminate).
     exists TreeError. apply add_path_wrong_root; [exact Hs|].
     assert (Hroot : tname b <> []) by (apply Hne; apply tname_in_names).
-    destruct (lstrip s [c]) as [|x r] eqn:E.
-    + destruct (parse_empty c s E) as [_ E2]. rewrite E2. cbn. congruence.
-    + rewrite (parse_agree c s) in Hwr by congruence.
-      pose proof (branch_of_nonempty s [c]) as Hb. destruct (branch_of s [c]) as [|r0 l]; [congruence|].
+    destruct Hpg as [(_ & _ & E2)|(_ & E1 & _)].
+    + rewrite E2. cbn. congruence.
+    + rewrite E1 in Hwr.
+      pose proof (branch_of_nonempty s sp) as Hb. destruct (branch_of s sp) as [|r0 l]; [congruence|].
       cbn. intros ->. rewrite str_eqb_refl in Hwr. discriminate.
 Qed.
 
@@ -3454,16 +3481,17 @@ Proof.
 Qed.
 
 (* a constructor: the model starts from a fresh root carrying a0, the specification from a bare one *)
-Lemma new_kind_structure k i c r a0 tsep mrows t' ps :
-  is_new k = true -> root_name k i = r -> prows k i = sprows c mrows -> r <> [] ->
-  NoDup (map fst a0) -> (forall key, attr_get a0 key <> None -> bound [c] mrows [r] key) ->
-  add_rows (T None r a0 []) tsep [c] true mrows [] = (t', Ret ps) ->
+Lemma new_kind_structure k i sp r a0 tsep mrows t' ps :
+  (forall r0, In r0 mrows -> PG sp (fst r0)) ->
+  is_new k = true -> root_name k i = r -> prows k i = sprows sp mrows -> r <> [] ->
+  NoDup (map fst a0) -> (forall key, attr_get a0 key <> None -> bound sp mrows [r] key) ->
+  add_rows (T None r a0 []) tsep sp true mrows [] = (t', Ret ps) ->
   list_eqb path_eqb (paths t') (expected_paths k i) = true
   /\ list_eqb opt_tag_eqb (map ttag (pre t')) (map (expected_tag k i) (paths t')) = true
   /\ forallb2 (fun p nd => attrs_equiv (tattrs nd) (expected_attrs k i p)) (paths t') (pre t') = true
   /\ forallb (path_ok k i) (map fst (prows k i)) = true.
 Proof.
-  intros Hnew Hroot Hpr Hr Ha0 Hbound H.
+  intros Hpg Hnew Hroot Hpr Hr Ha0 Hbound H.
   set (b := T None r a0 []) in *.
   assert (Hw : sib_ok b) by (constructor; constructor).
   assert (Hwf : attrs_wf b).
@@ -3471,8 +3499,8 @@ Proof.
   assert (Hne : nonempty_names b).
   { intros n Hn. unfold b in Hn. rewrite names_unfold in Hn. destruct Hn as [<-|[]]. exact Hr. }
   assert (Hnd : NoDup (paths b)) by (cbn; repeat constructor; intros []).
-  destruct (core_accepted c tsep _ _ _ _ Hw Hwf Hne Hnd H) as (F1 & F2 & _ & _ & F5 & _).
-  destruct (add_rows_accepted_ok c tsep _ _ _ _ _ Hne H) as (_ & Hn' & Hrows). cbn [tname b] in Hn'.
+  destruct (core_accepted sp tsep _ _ _ _ Hpg Hw Hwf Hne Hnd H) as (F1 & F2 & _ & _ & F5 & _).
+  destruct (add_rows_accepted_ok sp tsep _ _ _ _ _ Hpg Hne H) as (_ & Hn' & Hrows). cbn [tname b] in Hn'.
   unfold expected_paths, all_paths, expected_tag, expected_attrs, base_attrs, path_ok, wrong_root, base.
   rewrite Hnew, Hroot, Hpr. split; [|split; [|split]].
   - rewrite F1. apply list_eqb_refl. apply path_eqb_refl.
@@ -3483,8 +3511,8 @@ Proof.
             | Some a => a | None => [] end) with (battrs (T None r [] []) (names_along t' q)).
     rewrite battrs_fresh_root.
     assert (Efold : fold_left (fun a r1 => if path_eqb (fst r1) (names_along t' q) then set_attrs a (snd r1) else a)
-                              (sprows c mrows) []
-                    = upd_for [c] mrows (names_along t' q) []).
+                              (sprows sp mrows) []
+                    = upd_for sp mrows (names_along t' q) []).
     { unfold upd_for, sprows. rewrite fold_left_map. apply fold_left_ext_in.
       intros a r1 Hr1. cbn [fst snd]. unfold step_attrs. now rewrite (proj1 (Hrows r1 Hr1)). }
     rewrite Efold. apply attrs_equiv_true.
@@ -3724,25 +3752,25 @@ Proof.
   now apply IH.
 Qed.
 
-Lemma add_path_true_clean c t tsep path sep na t' p :
-  clean c t -> (forall x, In x (branch_of path sep) -> ~ In c x) ->
-  add_path_to_tree t tsep path sep true na = (t', Ret p) -> clean c t'.
+Lemma add_path_true_clean sp t tsep path sep na t' p :
+  cleans sp t -> Forall (sfree sp) (branch_of path sep) ->
+  add_path_to_tree t tsep path sep true na = (t', Ret p) -> cleans sp t'.
 Proof.
   intros Hc Hb H. destruct (add_path_inv _ _ _ _ _ _ _ H) as (rest & Hbr & _ & ->).
   intros x Hx. rewrite names_set_attrs in Hx. apply ins_names_incl in Hx as [Hx|Hx]; [now apply Hc|].
-  apply Hb. rewrite Hbr. now right.
+  rewrite Forall_forall in Hb. apply Hb. rewrite Hbr. now right.
 Qed.
 
-Lemma add_rows_false_true c sep : forall rows t acc t' ps,
-  NoDup (names t) -> clean c t ->
-  (forall r, In r rows -> forall x, In x (branch_of (fst r) sep) -> ~ In c x) ->
-  add_rows t [c] sep false rows acc = (t', Ret ps) ->
-  add_rows t [c] sep true rows acc = (t', Ret ps).
+Lemma add_rows_false_true tsep sep : tsep <> [] -> forall rows t acc t' ps,
+  NoDup (names t) -> cleans tsep t ->
+  (forall r, In r rows -> Forall (sfree tsep) (branch_of (fst r) sep)) ->
+  add_rows t tsep sep false rows acc = (t', Ret ps) ->
+  add_rows t tsep sep true rows acc = (t', Ret ps).
 Proof.
-  induction rows as [|[path na] rows IH]; intros t acc t' ps Hn Hc Hr H; cbn [add_rows] in *; [exact H|].
-  destruct (add_path_to_tree t [c] path sep false na) as [t1 [p|e]] eqn:Ha; [|discriminate].
-  assert (Hb : forall x, In x (branch_of path sep) -> ~ In c x) by (apply (Hr (path, na)); now left).
-  pose proof (add_path_false_true c t path sep na t1 p Hn Hc Hb Ha) as Ht. rewrite Ht.
+  intros Hts. induction rows as [|[path na] rows IH]; intros t acc t' ps Hn Hc Hr H; cbn [add_rows] in *; [exact H|].
+  destruct (add_path_to_tree t tsep path sep false na) as [t1 [p|e]] eqn:Ha; [|discriminate].
+  assert (Hb : Forall (sfree tsep) (branch_of path sep)) by (apply (Hr (path, na)); now left).
+  pose proof (add_path_false_true_multi tsep t path sep na t1 p Hts Hn Hc Hb Ha) as Ht. rewrite Ht.
   apply IH; auto.
   - eapply add_path_false_names; eauto.
   - eapply add_path_true_clean; eauto.
@@ -3751,17 +3779,27 @@ Qed.
 
 (* C05_no_dup_accept_iff: with duplicate names disallowed a loop of calls is accepted exactly when
    the permissive loop is accepted and leaves all names distinct; the results coincide.
-   Guard for the left-to-right direction only: the tree's separator is one character occurring in
-   no node name and in no path component. *)
+   Guard for the left-to-right direction only: no character of the tree's separator (any positive
+   length) occurs in a node name or in a path component. *)
+Theorem no_dup_accept_iff_multi tsep t sep rows t' ps :
+  tsep <> [] -> NoDup (names t) -> cleans tsep t ->
+  (forall r, In r rows -> Forall (sfree tsep) (branch_of (fst r) sep)) ->
+  (add_rows t tsep sep false rows [] = (t', Ret ps)
+   <-> add_rows t tsep sep true rows [] = (t', Ret ps) /\ NoDup (names t')).
+Proof.
+  intros Hts Hn Hc Hr. split.
+  - intros H. split; [eapply add_rows_false_true; eauto|eapply add_rows_false_names; eauto].
+  - intros [H Hn']. now apply add_rows_true_false.
+Qed.
+
 Theorem no_dup_accept_iff c t sep rows t' ps :
   NoDup (names t) -> clean c t ->
   (forall r, In r rows -> forall x, In x (branch_of (fst r) sep) -> ~ In c x) ->
   (add_rows t [c] sep false rows [] = (t', Ret ps)
    <-> add_rows t [c] sep true rows [] = (t', Ret ps) /\ NoDup (names t')).
 Proof.
-  intros Hn Hc Hr. split.
-  - intros H. split; [eapply add_rows_false_true; eauto|eapply add_rows_false_names; eauto].
-  - intros [H Hn']. now apply add_rows_true_false.
+  intros Hn Hc Hr. apply no_dup_accept_iff_multi; [discriminate|exact Hn|now apply clean_cleans|].
+  intros r Hin. apply Forall_forall. intros x Hx. apply sfree_one. now apply (Hr r Hin).
 Qed.
 
 (* ======================================================================================== *)
@@ -3789,15 +3827,16 @@ Proof.
 Qed.
 
 (* the names of the permissive result are distinct iff the specification's test on the closure says so *)
-Lemma names_distinct_link c tsep b rows t' ps :
+Lemma names_distinct_link sp tsep b rows t' ps :
+  (forall r, In r rows -> PG sp (fst r)) ->
   sib_ok b -> nonempty_names b ->
-  add_rows b tsep [c] true rows [] = (t', Ret ps) ->
-  let all := dedup [] (paths b ++ closure (map fst (sprows c rows))) in
+  add_rows b tsep sp true rows [] = (t', Ret ps) ->
+  let all := dedup [] (paths b ++ closure (map fst (sprows sp rows))) in
   NoDup (names t') <-> nodup_str (map (fun p => last p []) all) = true.
 Proof.
-  intros Hw Hne H all.
-  destruct (add_rows_accepted_ok c tsep _ _ _ _ _ Hne H) as (_ & _ & Hrows).
-  assert (Hbr : map fst (sprows c rows) = branches [c] rows).
+  intros Hpg Hw Hne H all.
+  destruct (add_rows_accepted_ok sp tsep _ _ _ _ _ Hpg Hne H) as (_ & _ & Hrows).
+  assert (Hbr : map fst (sprows sp rows) = branches sp rows).
   { unfold sprows, branches. rewrite map_map. apply map_ext_in. intros r Hr. cbn [fst]. now apply Hrows. }
   assert (P : Permutation (paths t') all).
   { apply NoDup_Permutation.
@@ -3824,103 +3863,106 @@ Proof.
   cbn [last]. right. apply IH.
 Qed.
 
-(* the guard of the specification for duplicate_name_allowed = False, unpacked *)
-Definition nodup_guard (c c2 : N) (b : tree) (rows : list row) : Prop :=
+(* the guard for duplicate_name_allowed = False: distinct names to start with, and no character of
+   the separator the tree works with (wsep, any positive length) in any name or path component *)
+Definition nodup_guard (sp wsep : str) (b : tree) (rows : list row) : Prop :=
   NoDup (names b) /\
-  (forall p, In p (paths b ++ map fst (sprows c rows)) -> forall x, In x p -> ~ In c2 x).
+  (forall p, In p (paths b ++ map fst (sprows sp rows)) -> forall x, In x p -> sfree wsep x).
 
-Lemma nodup_guard_clean c c2 b rows :
-  nodup_guard c c2 b rows ->
-  clean c2 b /\ (forall r, In r rows -> forall x, In x (branch_of (fst r) [c]) -> ~ In c2 x).
+Lemma nodup_guard_clean sp wsep b rows :
+  (forall r, In r rows -> PG sp (fst r)) ->
+  nodup_guard sp wsep b rows ->
+  cleans wsep b /\ (forall r, In r rows -> Forall (sfree wsep) (branch_of (fst r) sp)).
 Proof.
-  intros [_ Hg]. split.
+  intros Hpg [_ Hg]. split.
   - intros x Hx. unfold names in Hx. apply in_map_iff in Hx as (s & <- & Hs).
     destruct (in_pre_position b s Hs) as [q Hq].
     apply (Hg (names_along b q)); [apply in_or_app; left; apply (valid_in_paths q b s [] Hq)|].
     now apply tname_in_names_along.
-  - intros r Hr x Hx. destruct (lstrip (fst r) [c]) as [|ch l] eqn:E.
-    + destruct (parse_empty c _ E) as [_ E2]. rewrite E2 in Hx. destruct Hx as [<-|[]]. intros [].
-    + rewrite <- (parse_agree c (fst r)) in Hx by congruence.
-      apply (Hg (spec_parse (fst r) [c])); [|exact Hx]. apply in_or_app. right.
+  - intros r Hr. apply Forall_forall. intros x Hx. destruct (Hpg r Hr) as [(_ & _ & E2)|(_ & E1 & _)].
+    + rewrite E2 in Hx. destruct Hx as [<-|[]]. intros ch _ [].
+    + rewrite <- E1 in Hx.
+      apply (Hg (spec_parse (fst r) sp)); [|exact Hx]. apply in_or_app. right.
       unfold sprows. rewrite map_map. apply in_map_iff. exists r. auto.
 Qed.
 
-Definition acc_spec (dup : bool) (c : N) (b : tree) (rows : list row) : bool :=
-  forallb (path_ok_b (tname b)) (map fst (sprows c rows))
+Definition acc_spec (dup : bool) (sp : str) (b : tree) (rows : list row) : bool :=
+  forallb (path_ok_b (tname b)) (map fst (sprows sp rows))
   && (dup || nodup_str (map (fun p => last p [])
-                            (dedup [] (paths b ++ closure (map fst (sprows c rows)))))).
+                            (dedup [] (paths b ++ closure (map fst (sprows sp rows)))))).
 
-Lemma loop_verdict (dup : bool) c tsep b rows :
+Lemma loop_verdict (dup : bool) sp tsep b rows :
+  (forall r, In r rows -> PG sp (fst r)) ->
   sib_ok b -> nonempty_names b ->
-  (dup = true \/ exists c2, tsep = [c2] /\ nodup_guard c c2 b rows) ->
-  match add_rows b tsep [c] dup rows [] with
+  (dup = true \/ (tsep <> [] /\ nodup_guard sp tsep b rows)) ->
+  match add_rows b tsep sp dup rows [] with
   | (t', Ret ps) =>
-      acc_spec dup c b rows = true /\ add_rows b tsep [c] true rows [] = (t', Ret ps)
+      acc_spec dup sp b rows = true /\ add_rows b tsep sp true rows [] = (t', Ret ps)
       /\ (dup = true \/ NoDup (names t'))
   | (t1, Raise e) =>
-      acc_spec dup c b rows = false /\
+      acc_spec dup sp b rows = false /\
       (match rows with
-       | (s0, _) :: _ => match spec_parse s0 [c] with [] => true | r :: _ => negb (str_eqb r (tname b)) end = true
+       | (s0, _) :: _ => match spec_parse s0 sp with [] => true | r :: _ => negb (str_eqb r (tname b)) end = true
        | [] => False
        end -> t1 = b)
   end.
 Proof.
-  intros Hw Hne Hg.
-  assert (Hok_of_true : forall t' ps, add_rows b tsep [c] true rows [] = (t', Ret ps) ->
-            forallb (path_ok_b (tname b)) (map fst (sprows c rows)) = true).
-  { intros t' ps H. destruct (add_rows_accepted_ok c tsep _ _ _ _ _ Hne H) as (_ & _ & Hrows).
+  intros Hpg Hw Hne Hg.
+  assert (Hok_of_true : forall t' ps, add_rows b tsep sp true rows [] = (t', Ret ps) ->
+            forallb (path_ok_b (tname b)) (map fst (sprows sp rows)) = true).
+  { intros t' ps H. destruct (add_rows_accepted_ok sp tsep _ _ _ _ _ Hpg Hne H) as (_ & _ & Hrows).
     apply forallb_forall. intros p Hp. unfold sprows in Hp. rewrite map_map in Hp.
     apply in_map_iff in Hp as (r & <- & Hr). now apply Hrows. }
-  assert (Htrue_of_ok : forallb (path_ok_b (tname b)) (map fst (sprows c rows)) = true ->
-            exists t' ps, add_rows b tsep [c] true rows [] = (t', Ret ps)).
-  { intros Hok. apply add_rows_ok_accepted; [exact Hw|]. intros r Hr. rewrite forallb_forall in Hok.
+  assert (Htrue_of_ok : forallb (path_ok_b (tname b)) (map fst (sprows sp rows)) = true ->
+            exists t' ps, add_rows b tsep sp true rows [] = (t', Ret ps)).
+  { intros Hok. apply add_rows_ok_accepted; [exact Hpg|exact Hw|]. intros r Hr. rewrite forallb_forall in Hok.
     apply Hok. unfold sprows. rewrite map_map. apply in_map_iff. exists r. auto. }
-  destruct (add_rows b tsep [c] dup rows []) as [t1 [ps|e]] eqn:H.
+  destruct (add_rows b tsep sp dup rows []) as [t1 [ps|e]] eqn:H.
   - destruct dup.
     + split; [|split; [exact H|now left]]. unfold acc_spec. rewrite (Hok_of_true _ _ H). reflexivity.
-    + destruct Hg as [Hg|(c2 & -> & Hg)]; [discriminate|].
-      destruct (nodup_guard_clean _ _ _ _ Hg) as [Hc Hr]. destruct Hg as [Hn _].
-      apply (no_dup_accept_iff c2 b [c] rows t1 ps Hn Hc Hr) in H as [Ht Hn1].
+    + destruct Hg as [Hg|(Hts & Hg)]; [discriminate|].
+      destruct (nodup_guard_clean _ _ _ _ Hpg Hg) as [Hc Hr]. destruct Hg as [Hn _].
+      apply (no_dup_accept_iff_multi tsep b sp rows t1 ps Hts Hn Hc Hr) in H as [Ht Hn1].
       split; [|split; [exact Ht|now right]]. unfold acc_spec. rewrite (Hok_of_true _ _ Ht). cbn [orb andb].
-      now apply (names_distinct_link c [c2] b rows t1 ps Hw Hne Ht).
+      now apply (names_distinct_link sp tsep b rows t1 ps Hpg Hw Hne Ht).
   - split.
-    + destruct (acc_spec dup c b rows) eqn:Ea; [|reflexivity]. exfalso. unfold acc_spec in Ea.
+    + destruct (acc_spec dup sp b rows) eqn:Ea; [|reflexivity]. exfalso. unfold acc_spec in Ea.
       apply andb_true_iff in Ea as [Hok Hd]. destruct (Htrue_of_ok Hok) as (t' & ps & Ht).
       destruct dup; [rewrite Ht in H; discriminate|]. cbn [orb] in Hd.
-      apply (names_distinct_link c tsep b rows t' ps Hw Hne Ht) in Hd.
+      apply (names_distinct_link sp tsep b rows t' ps Hpg Hw Hne Ht) in Hd.
       rewrite (add_rows_true_false _ _ _ _ _ _ _ Hd Ht) in H. discriminate.
     + destruct rows as [|[s0 na0] rows']; [intros []|]. intros Hwr.
-      destruct (wrong_root_unchanged c b tsep s0 dup na0 Hne Hwr) as [e0 He0].
+      destruct (wrong_root_unchanged sp b tsep s0 dup na0 (Hpg (s0, na0) (or_introl eq_refl)) Hne Hwr) as [e0 He0].
       cbn [add_rows] in H. rewrite He0 in H. now inversion H.
 Qed.
 
 (* ======================================================================================== *)
 (* 32. C05_model_satisfies_prop: prop_C05 holds of the model's own output                      *)
 
-Lemma guards_nodup k i c c2 mrows :
-  guards k i = true -> i_dup i = false -> working_sep k i = [c2] -> prows k i = sprows c mrows ->
-  nodup_guard c c2 (base k i) mrows.
+Lemma guards_nodup k i sp c2 mrows :
+  guards k i = true -> i_dup i = false -> working_sep k i = [c2] -> prows k i = sprows sp mrows ->
+  nodup_guard sp [c2] (base k i) mrows.
 Proof.
   unfold guards. intros G Hd Hws Hpr. rewrite Hd, Hws, Hpr in G. cbn [orb] in G.
   rewrite !andb_true_iff in G. destruct G as (_ & Hn & Hf). split.
   - now apply nodup_str_NoDup.
   - intros p Hp x Hx. rewrite forallb_forall in Hf. specialize (Hf p Hp). rewrite forallb_forall in Hf.
-    specialize (Hf x Hx). apply negb_true_iff in Hf. now apply contains_single_false.
+    specialize (Hf x Hx). apply negb_true_iff in Hf. apply sfree_one. now apply contains_single_false.
 Qed.
 
-Lemma acc_spec_add k i c :
-  is_new k = false -> prows k i = sprows c (i_rows i) ->
+Lemma acc_spec_add k i sp :
+  is_new k = false -> prows k i = sprows sp (i_rows i) ->
   forallb (path_ok k i) (map fst (prows k i)) && (i_dup i || names_distinct_after k i)
-  = acc_spec (i_dup i) c (i_tree i) (i_rows i).
+  = acc_spec (i_dup i) sp (i_tree i) (i_rows i).
 Proof.
   intros Hnew Hpr. unfold acc_spec, names_distinct_after, all_paths, path_ok, wrong_root, base, root_name.
   now rewrite Hnew, Hpr.
 Qed.
 
-Lemma acc_spec_new k i c r a0 mrows :
-  is_new k = true -> root_name k i = r -> prows k i = sprows c mrows ->
+Lemma acc_spec_new k i sp r a0 mrows :
+  is_new k = true -> root_name k i = r -> prows k i = sprows sp mrows ->
   forallb (path_ok k i) (map fst (prows k i)) && (i_dup i || names_distinct_after k i)
-  = acc_spec (i_dup i) c (T None r a0 []) mrows.
+  = acc_spec (i_dup i) sp (T None r a0 []) mrows.
 Proof.
   intros Hnew Hr Hpr. unfold acc_spec, names_distinct_after, all_paths, path_ok, wrong_root, base.
   now rewrite Hnew, Hr, Hpr.
@@ -3933,28 +3975,29 @@ Proof.
   exfalso. apply (Hne []); [|reflexivity]. rewrite <- E. apply tname_in_names.
 Qed.
 
-Theorem model_satisfies_add_path i c :
-  i_sep i = [c] -> attrs_wf (i_tree i) -> (i_dup i = true \/ exists c2, i_tsep i = [c2]) ->
+Theorem model_satisfies_add_path_multi i :
+  i_sep i <> [] -> (forall r, In r (i_rows i) -> PG (i_sep i) (fst r)) -> attrs_wf (i_tree i) ->
+  (guards KAddPath i = true -> i_dup i = false ->
+   i_tsep i <> [] /\ nodup_guard (i_sep i) (i_tsep i) (i_tree i) (i_rows i)) ->
   prop_C05 KAddPath i (run KAddPath i) = true.
 Proof.
-  intros Hsep Hwf Hts. unfold prop_C05. cbn [is_byname]. unfold prop_paths.
+  intros Hsne Hpg Hwf Hts. set (sp := i_sep i) in *. unfold prop_C05. cbn [is_byname]. unfold prop_paths.
   destruct (guards KAddPath i) eqn:G; [cbn [negb]|reflexivity].
   destruct (guards_facts _ _ G) as (Hk & Hnd & Hne). cbn [base is_new] in Hnd, Hne.
   pose proof (NoDup_paths_sib_ok _ [] Hnd) as Hw.
-  pose proof (add_kind_prows KAddPath i c (fun a => eq_refl) Hsep) as Hpr.
-  assert (Hg : i_dup i = true \/ exists c2, i_tsep i = [c2] /\ nodup_guard c c2 (i_tree i) (i_rows i)).
-  { destruct (i_dup i) eqn:Hd; [now left|right]. destruct Hts as [Ht|[c2 Ht]]; [discriminate|].
-    exists c2. split; [exact Ht|]. apply (guards_nodup KAddPath i c c2 (i_rows i) G Hd Ht Hpr). }
-  pose proof (loop_verdict (i_dup i) c (i_tsep i) (i_tree i) (i_rows i) Hw Hne Hg) as V.
-  pose proof (acc_spec_add KAddPath i c eq_refl Hpr) as Hacc.
+  pose proof (add_kind_prows KAddPath i (fun a => eq_refl)) as Hpr. fold sp in Hpr.
+  assert (Hg : i_dup i = true \/ (i_tsep i <> [] /\ nodup_guard sp (i_tsep i) (i_tree i) (i_rows i))).
+  { destruct (i_dup i) eqn:Hd; [now left|right]. now apply Hts. }
+  pose proof (loop_verdict (i_dup i) sp (i_tsep i) (i_tree i) (i_rows i) Hpg Hw Hne Hg) as V.
+  pose proof (acc_spec_add KAddPath i sp eq_refl Hpr) as Hacc.
   assert (Hroot : is_nil (root_name KAddPath i) = false).
   { unfold root_name. cbn [is_new]. destruct (tname (i_tree i)) eqn:E; [|reflexivity].
     exfalso. apply (Hne []); [|reflexivity]. rewrite <- E. apply tname_in_names. }
-  unfold run. rewrite Hsep. cbn [is_nil]. change (forallb (row_keys_ok []) (i_rows i)) with (keys_ok KAddPath i).
+  unfold run. fold sp. destruct (is_nil sp) eqn:Esn; [unfold sp in *; destruct (i_sep i); [congruence|discriminate]|]. change (forallb (row_keys_ok []) (i_rows i)) with (keys_ok KAddPath i).
   rewrite Hk.
-  destruct (add_rows (i_tree i) (i_tsep i) [c] (i_dup i) (i_rows i) []) as [t1 [ps|e]] eqn:H; cbn [out_add o_res o_tree o_rets].
+  destruct (add_rows (i_tree i) (i_tsep i) sp (i_dup i) (i_rows i) []) as [t1 [ps|e]] eqn:H; cbn [out_add o_res o_tree o_rets].
   - destruct V as (Va & Ht & Hdist).
-    destruct (add_kind_structure KAddPath i c _ _ _ eq_refl Hpr Hw Hwf Hne Hnd Ht) as (C1 & C2 & C3 & C4 & C5).
+    destruct (add_kind_structure KAddPath i sp _ _ _ Hpg eq_refl Hpr Hw Hwf Hne Hnd Ht) as (C1 & C2 & C3 & C4 & C5).
     rewrite C1, C2, C3. unfold rets_ok. cbn [o_rets]. rewrite C5. cbn [andb].
     assert (Hlast : i_dup i || nodup_str (names_of t1) = true).
     { destruct Hdist as [->|Hn]; [reflexivity|]. change (names_of t1) with (names t1).
@@ -3978,32 +4021,43 @@ Proof.
       rewrite (Vsame Er). now apply same_tree_refl.
 Qed.
 
-Theorem model_satisfies_add_dict i c :
+Theorem model_satisfies_add_path i c :
   i_sep i = [c] -> attrs_wf (i_tree i) -> (i_dup i = true \/ exists c2, i_tsep i = [c2]) ->
+  prop_C05 KAddPath i (run KAddPath i) = true.
+Proof.
+  intros Hsep Hwf Hts. apply model_satisfies_add_path_multi; [rewrite Hsep; discriminate| |exact Hwf|].
+  - intros r _. rewrite Hsep. apply PG_single.
+  - intros G Hd. destruct Hts as [Ht|[c2 Ht]]; [congruence|]. rewrite Ht. split; [discriminate|].
+    apply (guards_nodup KAddPath i (i_sep i) c2 (i_rows i) G Hd Ht). apply add_kind_prows. reflexivity.
+Qed.
+
+Theorem model_satisfies_add_dict_multi i :
+  i_sep i <> [] -> (forall r, In r (i_rows i) -> PG (i_sep i) (fst r)) -> attrs_wf (i_tree i) ->
+  (guards KAddDict i = true -> i_dup i = false ->
+   i_tsep i <> [] /\ nodup_guard (i_sep i) (i_tsep i) (i_tree i) (i_rows i)) ->
   prop_C05 KAddDict i (run KAddDict i) = true.
 Proof.
-  intros Hsep Hwf Hts. unfold prop_C05. cbn [is_byname]. unfold prop_paths.
+  intros Hsne Hpg Hwf Hts. set (sp := i_sep i) in *. unfold prop_C05. cbn [is_byname]. unfold prop_paths.
   destruct (guards KAddDict i) eqn:G; [cbn [negb]|reflexivity].
   destruct (guards_facts _ _ G) as (Hk & Hnd & Hne). cbn [base is_new] in Hnd, Hne.
   pose proof (NoDup_paths_sib_ok _ [] Hnd) as Hw.
-  pose proof (add_kind_prows KAddDict i c (fun a => eq_refl) Hsep) as Hpr.
-  assert (Hg : i_dup i = true \/ exists c2, i_tsep i = [c2] /\ nodup_guard c c2 (i_tree i) (i_rows i)).
-  { destruct (i_dup i) eqn:Hd; [now left|right]. destruct Hts as [Ht|[c2 Ht]]; [discriminate|].
-    exists c2. split; [exact Ht|]. apply (guards_nodup KAddDict i c c2 (i_rows i) G Hd Ht Hpr). }
-  pose proof (loop_verdict (i_dup i) c (i_tsep i) (i_tree i) (i_rows i) Hw Hne Hg) as V.
-  pose proof (acc_spec_add KAddDict i c eq_refl Hpr) as Hacc.
+  pose proof (add_kind_prows KAddDict i (fun a => eq_refl)) as Hpr. fold sp in Hpr.
+  assert (Hg : i_dup i = true \/ (i_tsep i <> [] /\ nodup_guard sp (i_tsep i) (i_tree i) (i_rows i))).
+  { destruct (i_dup i) eqn:Hd; [now left|right]. now apply Hts. }
+  pose proof (loop_verdict (i_dup i) sp (i_tsep i) (i_tree i) (i_rows i) Hpg Hw Hne Hg) as V.
+  pose proof (acc_spec_add KAddDict i sp eq_refl Hpr) as Hacc.
   assert (Hroot : is_nil (root_name KAddDict i) = false).
   { unfold root_name. cbn [is_new]. destruct (tname (i_tree i)) eqn:E; [|reflexivity].
     exfalso. apply (Hne []); [|reflexivity]. rewrite <- E. apply tname_in_names. }
-  unfold run. rewrite Hsep. cbn [is_nil]. change (forallb (row_keys_ok []) (i_rows i)) with (keys_ok KAddDict i).
+  unfold run. fold sp. destruct (is_nil sp) eqn:Esn; [unfold sp in *; destruct (i_sep i); [congruence|discriminate]|]. change (forallb (row_keys_ok []) (i_rows i)) with (keys_ok KAddDict i).
   rewrite Hk. unfold add_dict_to_tree_by_path.
   destruct (i_rows i) as [|r0 rows] eqn:Er.
   - cbn [out_add o_res o_tree]. unfold expected_accept, no_call, refused_at_once. rewrite Er. cbn.
     now apply same_tree_refl.
   - rewrite <- Er in *.
-    destruct (add_rows (i_tree i) (i_tsep i) [c] (i_dup i) (i_rows i) []) as [t1 [ps|e]] eqn:H; cbn [out_add o_res o_tree o_rets].
+    destruct (add_rows (i_tree i) (i_tsep i) sp (i_dup i) (i_rows i) []) as [t1 [ps|e]] eqn:H; cbn [out_add o_res o_tree o_rets].
     + destruct V as (Va & Ht & Hdist).
-      destruct (add_kind_structure KAddDict i c _ _ _ eq_refl Hpr Hw Hwf Hne Hnd Ht) as (C1 & C2 & C3 & C4 & C5).
+      destruct (add_kind_structure KAddDict i sp _ _ _ Hpg eq_refl Hpr Hw Hwf Hne Hnd Ht) as (C1 & C2 & C3 & C4 & C5).
       rewrite C1, C2, C3. unfold rets_ok. cbn [o_rets list_eqb Nat.eqb andb].
       assert (Hlast : i_dup i || nodup_str (names_of t1) = true).
       { destruct Hdist as [->|Hn]; [reflexivity|]. change (names_of t1) with (names t1).
@@ -4022,23 +4076,33 @@ Proof.
       try rewrite Er in Vsame. rewrite (Vsame Ero). now apply same_tree_refl.
 Qed.
 
-Lemma add_rows_dedup_false c2 sep : forall L seen t acc1 acc2,
-  NoDup (names t) -> clean c2 t ->
-  (forall s, In s L -> forall x, In x (branch_of s sep) -> ~ In c2 x) ->
-  (forall s, In s seen -> s <> [] /\ exists q sx, subtree_at t q = Some sx /\ names_along t q = branch_of s sep) ->
-  collapse (add_rows t [c2] sep false (map (fun p => (p, [])) (dedup_str seen L)) acc1)
-  = collapse (add_rows t [c2] sep false (map (fun p => (p, [])) L) acc2).
+Theorem model_satisfies_add_dict i c :
+  i_sep i = [c] -> attrs_wf (i_tree i) -> (i_dup i = true \/ exists c2, i_tsep i = [c2]) ->
+  prop_C05 KAddDict i (run KAddDict i) = true.
 Proof.
-  induction L as [|x L IH]; intros seen t acc1 acc2 Hn Hc Hcl Hseen; [reflexivity|].
+  intros Hsep Hwf Hts. apply model_satisfies_add_dict_multi; [rewrite Hsep; discriminate| |exact Hwf|].
+  - intros r _. rewrite Hsep. apply PG_single.
+  - intros G Hd. destruct Hts as [Ht|[c2 Ht]]; [congruence|]. rewrite Ht. split; [discriminate|].
+    apply (guards_nodup KAddDict i (i_sep i) c2 (i_rows i) G Hd Ht). apply add_kind_prows. reflexivity.
+Qed.
+
+Lemma add_rows_dedup_false tsep sep : tsep <> [] -> forall L seen t acc1 acc2,
+  NoDup (names t) -> cleans tsep t ->
+  (forall s, In s L -> Forall (sfree tsep) (branch_of s sep)) ->
+  (forall s, In s seen -> s <> [] /\ exists q sx, subtree_at t q = Some sx /\ names_along t q = branch_of s sep) ->
+  collapse (add_rows t tsep sep false (map (fun p => (p, [])) (dedup_str seen L)) acc1)
+  = collapse (add_rows t tsep sep false (map (fun p => (p, [])) L) acc2).
+Proof.
+  intros Hts. induction L as [|x L IH]; intros seen t acc1 acc2 Hn Hc Hcl Hseen; [reflexivity|].
   pose proof (NoDup_names_sib_ok t Hn) as Hw.
-  assert (Hcl' : forall s, In s L -> forall y, In y (branch_of s sep) -> ~ In c2 y) by (intros s Hs; apply Hcl; now right).
+  assert (Hcl' : forall s, In s L -> Forall (sfree tsep) (branch_of s sep)) by (intros s Hs; apply Hcl; now right).
   cbn [dedup_str map add_rows]. destruct (existsb (str_eqb x) seen) eqn:E.
   - apply In_existsb_str in E. destruct (Hseen x E) as (Hx & q & sx & Hq & Hnq).
-    pose proof (add_path_existing t [c2] x sep q sx Hw Hx Hq Hnq) as Ht.
+    pose proof (add_path_existing t tsep x sep q sx Hw Hx Hq Hnq) as Ht.
     rewrite (add_path_true_false _ _ _ _ _ _ _ Hn Ht). now apply IH.
-  - cbn [map add_rows]. destruct (add_path_to_tree t [c2] x sep false []) as [t1 [p|e]] eqn:Ha; [|reflexivity].
-    assert (Hbx : forall y, In y (branch_of x sep) -> ~ In c2 y) by (apply Hcl; now left).
-    pose proof (add_path_false_true c2 t x sep [] t1 p Hn Hc Hbx Ha) as Ht.
+  - cbn [map add_rows]. destruct (add_path_to_tree t tsep x sep false []) as [t1 [p|e]] eqn:Ha; [|reflexivity].
+    assert (Hbx : Forall (sfree tsep) (branch_of x sep)) by (apply Hcl; now left).
+    pose proof (add_path_false_true_multi tsep t x sep [] t1 p Hts Hn Hc Hbx Ha) as Ht.
     destruct (add_path_positions _ _ _ _ _ _ _ Ht) as (Hkeep & Hnp & sp & Hsp).
     apply IH; auto.
     + eapply add_path_false_names; eauto.
@@ -4049,17 +4113,16 @@ Proof.
         destruct (Hkeep q sx Hq) as (s' & Hs' & Hn' & _). exists q, s'. split; [exact Hs'|congruence].
 Qed.
 
-Lemma list_to_tree_full_false c2 p0 ps sep :
+Lemma list_to_tree_full_false p0 ps sep :
   let r := hd [] (split (lstrip p0 sep) sep) in
-  ~ In c2 r ->
-  (forall s, In s (p0 :: ps) -> forall x, In x (branch_of s sep) -> ~ In c2 x) ->
-  sep = [c2] ->
+  sep <> [] -> sfree sep r ->
+  (forall s, In s (p0 :: ps) -> Forall (sfree sep) (branch_of s sep)) ->
   list_to_tree (p0 :: ps) sep false
   = if is_nil r then Raise TreeError
     else collapse (add_rows (T None r [] []) sep sep false (map (fun p => (p, [])) (p0 :: ps)) []).
 Proof.
-  intros r Hr Hcl ->. unfold list_to_tree. fold r. destruct (is_nil r); [reflexivity|].
-  rewrite <- (add_rows_dedup_false c2 [c2] (p0 :: ps) [] (T None r [] []) [] []).
+  intros r Hs Hr Hcl. unfold list_to_tree. fold r. destruct (is_nil r); [reflexivity|].
+  rewrite <- (add_rows_dedup_false sep sep Hs (p0 :: ps) [] (T None r [] []) [] []).
   - unfold collapse. destruct (add_rows _ _ _ _ _ _) as [t [x|e]]; reflexivity.
   - rewrite names_unfold. cbn. repeat constructor. intros [].
   - intros x Hx. rewrite names_unfold in Hx. destruct Hx as [<-|[]]. exact Hr.
@@ -4067,24 +4130,37 @@ Proof.
   - intros s [].
 Qed.
 
-Theorem model_satisfies_list i c :
-  i_sep i = [c] -> prop_C05 KList i (run KList i) = true.
+Lemma nodup_guard_ext sp w b r1 r2 :
+  map fst (sprows sp r1) = map fst (sprows sp r2) -> nodup_guard sp w b r1 -> nodup_guard sp w b r2.
+Proof. intros E [H1 H2]. split; [exact H1|]. rewrite <- E. exact H2. Qed.
+
+Theorem model_satisfies_list_multi i :
+  i_sep i <> [] -> (forall r, In r (i_rows i) -> PG (i_sep i) (fst r)) ->
+  (guards KList i = true -> i_dup i = false ->
+   nodup_guard (i_sep i) (i_sep i) (base KList i) (i_rows i)) ->
+  prop_C05 KList i (run KList i) = true.
 Proof.
-  intros Hsep. unfold prop_C05. cbn [is_byname]. unfold prop_paths.
+  intros Hsne Hpg Hts. set (sp := i_sep i) in *. unfold prop_C05. cbn [is_byname]. unfold prop_paths.
   destruct (guards KList i) eqn:G; [cbn [negb]|reflexivity].
-  unfold run. rewrite Hsep. cbn [is_nil].
+  unfold run. fold sp. destruct (is_nil sp) eqn:Esn; [unfold sp in *; destruct (i_sep i); [congruence|discriminate]|].
   pose proof (root_name_new KList i eq_refl) as Hrn.
   destruct (i_rows i) as [|[p0 a0] rows] eqn:Er.
   - cbn [map list_to_tree out_new o_res o_tree]. unfold expected_accept, no_call. rewrite Er. reflexivity.
-  - cbn [map fst]. rewrite Hsep in Hrn. cbn [fst] in Hrn.
-    destruct (root_inference c p0) as [Hri _].
+  - cbn [map fst]. fold sp in Hrn. cbn [fst] in Hrn.
+    destruct (root_inference sp p0 Hsne (Hpg (p0, a0) (or_introl eq_refl))) as [Hri _].
     set (r := root_name KList i) in *.
     set (mrows := map (fun p => (p, @nil (str * val))) (p0 :: map fst rows)).
-    assert (Hpr : prows KList i = sprows c mrows).
-    { unfold prows, sprows, mrows. rewrite Er, Hsep. cbn [map fst snd spec_filter]. f_equal.
+    assert (Hfst : map fst (sprows sp ((p0, a0) :: rows)) = map fst (sprows sp mrows)).
+    { unfold sprows, mrows. rewrite !map_map. cbn [map fst]. f_equal. rewrite !map_map. reflexivity. }
+    assert (Hpgm : forall r0, In r0 mrows -> PG sp (fst r0)).
+    { intros r0 Hr0. unfold mrows in Hr0. apply in_map_iff in Hr0 as (x & <- & Hx). cbn [fst].
+      destruct Hx as [<-|Hx]; [apply (Hpg (p0, a0)); now left|].
+      apply in_map_iff in Hx as (r1 & <- & Hr1). apply (Hpg r1). now right. }
+    assert (Hpr : prows KList i = sprows sp mrows).
+    { unfold prows, sprows, mrows. rewrite Er. fold sp. cbn [map fst snd spec_filter]. f_equal.
       rewrite !map_map. reflexivity. }
     destruct (is_nil r) eqn:En.
-    + assert (Hm : list_to_tree (p0 :: map fst rows) [c] (i_dup i) = Raise TreeError).
+    + assert (Hm : list_to_tree (p0 :: map fst rows) sp (i_dup i) = Raise TreeError).
       { unfold list_to_tree. rewrite Hri, <- Hrn. now rewrite En. }
       rewrite Hm. cbn [out_new o_res o_tree]. unfold expected_accept, no_call. rewrite Er. fold r. rewrite En.
       cbn. reflexivity.
@@ -4094,25 +4170,25 @@ Proof.
       assert (Hne : nonempty_names b0).
       { intros n Hn. unfold b0 in Hn. rewrite names_unfold in Hn. destruct Hn as [<-|[]]. exact Hr. }
       assert (Hbase : base KList i = b0) by reflexivity.
-      assert (Hg : i_dup i = true \/ exists c2, [c] = [c2] /\ nodup_guard c c2 b0 mrows).
-      { destruct (i_dup i) eqn:Hd; [now left|right]. exists c. split; [reflexivity|]. rewrite <- Hbase.
-        apply (guards_nodup KList i c c mrows G Hd); [cbn [working_sep]; exact Hsep|exact Hpr]. }
-      assert (Hm : list_to_tree (p0 :: map fst rows) [c] (i_dup i)
-                   = collapse (add_rows b0 [c] [c] (i_dup i) mrows [])).
+      assert (Hg : i_dup i = true \/ (sp <> [] /\ nodup_guard sp sp b0 mrows)).
+      { destruct (i_dup i) eqn:Hd; [now left|right]. split; [exact Hsne|]. rewrite <- Hbase.
+        eapply nodup_guard_ext; [exact Hfst|]. now apply Hts. }
+      assert (Hm : list_to_tree (p0 :: map fst rows) sp (i_dup i)
+                   = collapse (add_rows b0 sp sp (i_dup i) mrows [])).
       { destruct (i_dup i) eqn:Hd.
         - rewrite list_to_tree_full, Hri, <- Hrn. fold r. now rewrite En.
-        - destruct Hg as [Hg|(c2 & E2 & Hg)]; [discriminate|]. inversion E2; subst c2.
-          destruct (nodup_guard_clean _ _ _ _ Hg) as [Hc Hcl].
-          rewrite (list_to_tree_full_false c p0 (map fst rows) [c]); [| | |reflexivity].
+        - destruct Hg as [Hg|(_ & Hg)]; [discriminate|].
+          destruct (nodup_guard_clean _ _ _ _ Hpgm Hg) as [Hc Hcl].
+          rewrite (list_to_tree_full_false p0 (map fst rows) sp); [|exact Hsne| |].
           + rewrite Hri, <- Hrn. fold r. now rewrite En.
           + rewrite Hri, <- Hrn. apply Hc. unfold b0. rewrite names_unfold. now left.
-          + intros s Hs x Hx. apply (Hcl (s, [])); [|exact Hx]. unfold mrows. apply in_map_iff. exists s. auto. }
+          + intros s Hs. apply (Hcl (s, [])). unfold mrows. apply in_map_iff. exists s. auto. }
       rewrite Hm.
-      pose proof (loop_verdict (i_dup i) c [c] b0 mrows Hw Hne Hg) as V.
-      pose proof (acc_spec_new KList i c r [] mrows eq_refl eq_refl Hpr) as Hacc. fold b0 in Hacc.
-      destruct (add_rows b0 [c] [c] (i_dup i) mrows []) as [t1 [ps|e]] eqn:H; cbn [collapse out_new o_res o_tree o_rets].
+      pose proof (loop_verdict (i_dup i) sp sp b0 mrows Hpgm Hw Hne Hg) as V.
+      pose proof (acc_spec_new KList i sp r [] mrows eq_refl eq_refl Hpr) as Hacc. fold b0 in Hacc.
+      destruct (add_rows b0 sp sp (i_dup i) mrows []) as [t1 [ps|e]] eqn:H; cbn [collapse out_new o_res o_tree o_rets].
       * destruct V as (Va & Ht & Hdist).
-        destruct (new_kind_structure KList i c r [] [c] mrows t1 ps eq_refl eq_refl Hpr Hr) as (C1 & C2 & C3 & C4);
+        destruct (new_kind_structure KList i sp r [] sp mrows t1 ps Hpgm eq_refl eq_refl Hpr Hr) as (C1 & C2 & C3 & C4);
           [constructor|intros key Hk; cbn in Hk; congruence|exact Ht|].
         rewrite C1, C2, C3. unfold rets_ok. cbn [o_rets list_eqb Nat.eqb andb].
         assert (Hlast : i_dup i || nodup_str (names_of t1) = true).
@@ -4127,6 +4203,18 @@ Proof.
         rewrite Hrej. reflexivity.
 Qed.
 
+Theorem model_satisfies_list i c :
+  i_sep i = [c] -> prop_C05 KList i (run KList i) = true.
+Proof.
+  intros Hsep. apply model_satisfies_list_multi; [rewrite Hsep; discriminate| |].
+  - intros r _. rewrite Hsep. apply PG_single.
+  - intros G Hd. rewrite Hsep at 2.
+    apply (nodup_guard_ext (i_sep i) [c] _ (map (fun r : row => (fst r, @nil (str * val))) (i_rows i))).
+    + unfold sprows. rewrite !map_map. reflexivity.
+    + apply (guards_nodup KList i (i_sep i) c _ G Hd); [cbn [working_sep]; exact Hsep|].
+      unfold prows, sprows. rewrite map_map. apply map_ext. intros r. reflexivity.
+Qed.
+
 Lemma dict_to_tree_form_dup dup d sep k0 a0 rows :
   d = (k0, a0) :: rows ->
   dict_to_tree d sep dup
@@ -4139,24 +4227,27 @@ Lemma dict_to_tree_form_dup dup d sep k0 a0 rows :
                             (map (fun r0 : str * attrs => (fst r0, filter_attributes (snd r0) [k_name] false)) d) []).
 Proof. intros ->. reflexivity. Qed.
 
-Lemma nodup_guard_root_attrs c c2 r a rows :
-  nodup_guard c c2 (T None r [] []) rows -> nodup_guard c c2 (T None r a []) rows.
+Lemma nodup_guard_root_attrs sp w r a rows :
+  nodup_guard sp w (T None r [] []) rows -> nodup_guard sp w (T None r a []) rows.
 Proof. intros [H1 H2]. split; [rewrite names_unfold in *; exact H1|exact H2]. Qed.
 
-Theorem model_satisfies_dict i c :
-  i_sep i = [c] -> prop_C05 KDict i (run KDict i) = true.
+Theorem model_satisfies_dict_multi i :
+  i_sep i <> [] -> (forall r, In r (i_rows i) -> PG (i_sep i) (fst r)) ->
+  (guards KDict i = true -> i_dup i = false ->
+   nodup_guard (i_sep i) (i_sep i) (base KDict i) (i_rows i)) ->
+  prop_C05 KDict i (run KDict i) = true.
 Proof.
-  intros Hsep. unfold prop_C05. cbn [is_byname]. unfold prop_paths.
+  intros Hsne Hpg Hts. set (sp := i_sep i) in *. unfold prop_C05. cbn [is_byname]. unfold prop_paths.
   destruct (guards KDict i) eqn:G; [cbn [negb]|reflexivity].
   destruct (guards_facts _ _ G) as (Hk & _ & _).
-  unfold run. rewrite Hsep. cbn [is_nil].
+  unfold run. fold sp. destruct (is_nil sp) eqn:Esn; [unfold sp in *; destruct (i_sep i); [congruence|discriminate]|].
   change (forallb (row_keys_ok [k_name]) (i_rows i)) with (keys_ok KDict i). rewrite Hk.
   pose proof (root_name_new KDict i eq_refl) as Hrn.
   destruct (i_rows i) as [|[k0 a0] rows] eqn:Er.
   - cbn [dict_to_tree out_new o_res o_tree]. unfold expected_accept, no_call. rewrite Er. reflexivity.
   - rewrite <- Er. rewrite (dict_to_tree_form_dup _ _ _ _ _ _ Er). cbv zeta.
-    rewrite Hsep in Hrn. cbn [fst] in Hrn.
-    destruct (root_inference c k0) as [_ Hri]. rewrite Hri, <- Hrn.
+    fold sp in Hrn. cbn [fst] in Hrn. pose proof (Hpg (k0, a0) (or_introl eq_refl)) as Hpg0. cbn [fst] in Hpg0.
+    destruct (root_inference sp k0 Hsne Hpg0) as [_ Hri]. rewrite Hri, <- Hrn.
     set (r := root_name KDict i) in *.
     set (get := fun k => match dict_get (i_rows i) k with Some a => a | None => [] end).
     set (mrows := map (fun r0 : str * attrs => (fst r0, filter_attributes (snd r0) [k_name] false)) (i_rows i)).
@@ -4165,28 +4256,30 @@ Proof.
     destruct (is_nil r) eqn:En.
     + cbn [out_new o_res o_tree]. unfold expected_accept, no_call. rewrite Er. fold r. rewrite En. cbn. reflexivity.
     + assert (Hr : r <> []) by (destruct r; [discriminate|discriminate]).
-      assert (Hpr : prows KDict i = sprows c mrows).
-      { unfold prows, sprows, mrows. rewrite Hsep, map_map. apply map_ext. intros r0. cbn [fst snd].
+      assert (Hpr : prows KDict i = sprows sp mrows).
+      { unfold prows, sprows, mrows. fold sp. rewrite map_map. apply map_ext. intros r0. cbn [fst snd].
         now rewrite dict_filter_spec with (pcol := i_pcol i). }
-      assert (Hrc : ~ In c r).
-      { rewrite Hrn. destruct (lstrip k0 [c]) as [|ch l] eqn:El.
-        - destruct (parse_empty c k0 El) as [E1 _]. rewrite E1. intros [].
-        - rewrite (parse_agree c k0) by congruence. unfold branch_of. rewrite split_splitc.
-          pose proof (splitc_nonempty c (rstrip (lstrip k0 [c]) [c])) as Hne.
-          destruct (splitc c (rstrip (lstrip k0 [c]) [c])) as [|h t] eqn:Es; [congruence|].
-          cbn [hd]. apply (splitc_no_sep c (rstrip (lstrip k0 [c]) [c])). rewrite Es. now left. }
-      assert (Hbound : forall key, attr_get (set_attrs [] ra) key <> None -> bound [c] mrows [r] key).
+      assert (Hfst : map fst (sprows sp (i_rows i)) = map fst (sprows sp mrows)).
+      { unfold sprows, mrows. rewrite !map_map. reflexivity. }
+      assert (Hpgm : forall r0, In r0 mrows -> PG sp (fst r0)).
+      { intros r0 Hr0. unfold mrows in Hr0. apply in_map_iff in Hr0 as (x & <- & Hx). cbn [fst]. try rewrite Er in Hx. now apply Hpg. }
+      assert (Hrg : sgood sp r).
+      { split; [exact Hr|]. destruct Hpg0 as [(_ & E1 & _)|(_ & E1 & _ & Hf)].
+        - exfalso. apply Hr. rewrite Hrn, E1. reflexivity.
+        - rewrite Hrn, E1 in *. destruct (branch_of k0 sp) as [|h t]; [cbn in Hr; congruence|].
+          cbn [hd]. now inversion Hf. }
+      assert (Hbound : forall key, attr_get (set_attrs [] ra) key <> None -> bound sp mrows [r] key).
       { intros key Hkey. rewrite attr_get_set_attrs_last in Hkey.
         destruct (attr_get (rev ra) key) eqn:Eg; [|cbn in Hkey; congruence].
         assert (HA : A <> []) by (intros E; unfold ra in Eg; rewrite E in Eg; discriminate).
         pose proof (first_nonempty_In _ HA) as Hin. fold A in Hin. cbn [In] in Hin.
-        assert (Hex : exists kk, branch_of kk [c] = [r] /\ get kk = A).
-        { pose proof (branch_of_word c r Hr Hrc) as Hb.
+        assert (Hex : exists kk, branch_of kk sp = [r] /\ get kk = A).
+        { pose proof (branch_of_word sp r Hsne Hrg) as Hb.
           destruct Hin as [E|[E|[E|[E|[]]]]].
           - exists r. auto.
-          - exists ([c] ++ r). split; [|exact E]. cbn [app]. now rewrite branch_of_leading.
-          - exists (r ++ [c]). split; [|exact E]. now rewrite branch_of_trailing.
-          - exists ([c] ++ r ++ [c]). split; [|exact E]. cbn [app]. now rewrite branch_of_leading, branch_of_trailing. }
+          - exists (sp ++ r). split; [|exact E]. now rewrite branch_of_leading_multi.
+          - exists (r ++ sp). split; [|exact E]. now rewrite branch_of_trailing_multi.
+          - exists (sp ++ r ++ sp). split; [|exact E]. now rewrite branch_of_leading_multi, branch_of_trailing_multi. }
         destruct Hex as (kk & Hb & Hg). unfold get in Hg.
         destruct (dict_get (i_rows i) kk) as [a|] eqn:Ed; [|congruence]. subst a.
         exists (kk, ra). split; [|split; [exact Hb|cbn [snd]; congruence]].
@@ -4195,16 +4288,16 @@ Proof.
       assert (Hw : sib_ok b1) by (constructor; constructor).
       assert (Hne : nonempty_names b1).
       { intros n Hn. unfold b1 in Hn. rewrite names_unfold in Hn. destruct Hn as [<-|[]]. exact Hr. }
-      assert (Hg : i_dup i = true \/ exists c2, [c] = [c2] /\ nodup_guard c c2 b1 mrows).
-      { destruct (i_dup i) eqn:Hd; [now left|right]. exists c. split; [reflexivity|].
-        apply nodup_guard_root_attrs.
-        apply (guards_nodup KDict i c c mrows G Hd); [cbn [working_sep]; exact Hsep|exact Hpr]. }
-      pose proof (loop_verdict (i_dup i) c [c] b1 mrows Hw Hne Hg) as V.
-      pose proof (acc_spec_new KDict i c r (set_attrs [] ra) mrows eq_refl eq_refl Hpr) as Hacc. fold b1 in Hacc.
-      destruct (add_rows b1 [c] [c] (i_dup i) mrows []) as [t1 [ps|e]] eqn:H;
+      assert (Hg : i_dup i = true \/ (sp <> [] /\ nodup_guard sp sp b1 mrows)).
+      { destruct (i_dup i) eqn:Hd; [now left|right]. split; [exact Hsne|].
+        apply nodup_guard_root_attrs. eapply nodup_guard_ext; [exact Hfst|].
+        change (T None r [] []) with (base KDict i). rewrite Er. now apply Hts. }
+      pose proof (loop_verdict (i_dup i) sp sp b1 mrows Hpgm Hw Hne Hg) as V.
+      pose proof (acc_spec_new KDict i sp r (set_attrs [] ra) mrows eq_refl eq_refl Hpr) as Hacc. fold b1 in Hacc.
+      destruct (add_rows b1 sp sp (i_dup i) mrows []) as [t1 [ps|e]] eqn:H;
         cbn [collapse out_new o_res o_tree o_rets].
       * destruct V as (Va & Ht & Hdist).
-        destruct (new_kind_structure KDict i c r (set_attrs [] ra) [c] mrows t1 ps eq_refl eq_refl Hpr Hr) as (C1 & C2 & C3 & C4);
+        destruct (new_kind_structure KDict i sp r (set_attrs [] ra) sp mrows t1 ps Hpgm eq_refl eq_refl Hpr Hr) as (C1 & C2 & C3 & C4);
           [apply set_attrs_keys; constructor|exact Hbound|exact Ht|].
         rewrite C1, C2, C3. unfold rets_ok. cbn [o_rets list_eqb Nat.eqb andb].
         assert (Hlast : i_dup i || nodup_str (names_of t1) = true).
@@ -4217,6 +4310,20 @@ Proof.
         { unfold expected_accept, no_call. rewrite Er at 1. cbn [is_nil negb orb andb is_frame]. fold r.
           rewrite En. cbn [negb andb]. rewrite andb_true_r. exact Hacc. }
         rewrite Hrej. reflexivity.
+Qed.
+
+Theorem model_satisfies_dict i c :
+  i_sep i = [c] -> prop_C05 KDict i (run KDict i) = true.
+Proof.
+  intros Hsep. apply model_satisfies_dict_multi; [rewrite Hsep; discriminate| |].
+  - intros r _. rewrite Hsep. apply PG_single.
+  - intros G Hd. rewrite Hsep at 2.
+    apply (nodup_guard_ext (i_sep i) [c] _
+             (map (fun r0 : str * attrs => (fst r0, filter_attributes (snd r0) [k_name] false)) (i_rows i))).
+    + unfold sprows. rewrite !map_map. reflexivity.
+    + apply (guards_nodup KDict i (i_sep i) c _ G Hd); [cbn [working_sep]; exact Hsep|].
+      unfold prows, sprows. rewrite map_map. apply map_ext. intros r0. cbn [fst snd].
+      now rewrite dict_filter_spec with (pcol := i_pcol i).
 Qed.
 
 (* ======================================================================================== *)
@@ -4309,4 +4416,16 @@ Proof.
     destruct (add_rows a1 a2 a3 a4 a5 a6) as [t1 [ps1|e]] eqn:Ha; [|discriminate] end.
   cbn [collapse]. intros E. inversion E; subst t1. exists r, ra. intros q s' Hq.
   eapply add_rows_attrs; eauto. constructor; constructor.
+Qed.
+
+(* the guard on a path string for separators of any length, as the generator renders it: a name list
+   (names non-empty, free of separator characters) joined by the separator, with any number of whole
+   leading / trailing separators; or nothing but separators *)
+Definition rendered (sp s : str) : Prop :=
+  (exists a b L, L <> [] /\ Forall (sgood sp) L /\ s = rep sp a ++ join sp L ++ rep sp b)
+  \/ (exists a, s = rep sp a).
+
+Lemma rendered_PG sp s : sp <> [] -> rendered sp s -> PG sp s.
+Proof.
+  intros Hs [(a & b & L & Hne & Hall & ->)|(a & ->)]; [now apply PG_render|now apply PG_seps].
 Qed.
